@@ -125,7 +125,47 @@ class Ctx:
         self.call_sites += count_calls(body.get('thir'))
         if args is None:
             self.cache[ck] = ev
+            self.totality(body, vf)
         return ev
+
+    def totality(self, body, vf):
+        """generic obligation on every analysed function: each of its own loops is reached on
+        every path through the code around it -- a guard clause or an `if` in front of a loop makes everything the spec derives
+        from the loop summary conditional.  Accepted: guards that only skip an empty loop (`if n > 0 { for _ in 0..n {..} }`)."""
+        from .facts import canon_path
+        if not hasattr(self, '_total_seen'):
+            self._total_seen = set()
+        anchor = canon_path(body['path'])
+        by_uid = {ls.uid: ls for ls in vf.loops}
+        n_cond = 0
+        for ls in vf.loops:
+            parent = by_uid.get(ls.ctx[-1]) if ls.ctx else None
+            base = set(getattr(parent, 'pc', ())) if parent is not None else set()
+            extra = [c for c in getattr(ls, 'pc', ()) if c not in base]
+            if ls.owner != strip_generics(body['path']):
+                continue            # a loop of an inlined helper is reached under its call site's condition: the caller's events carry it
+            if parent is not None:
+                # conditions inside the enclosing loop's body are that loop's business (its summary carries them); only the way in counts
+                continue
+            nn = ls.n if isinstance(ls.n, T.Tm) else None
+            vac = set()
+            if nn is not None:
+                vac = {T.cmp('gt', nn, T.ZERO), T.lnot(T.cmp('eq', nn, T.ZERO)), T.cmp('ge', nn, T.ONE)}
+            extra = [c for c in extra if c not in vac]
+            if extra:
+                n_cond += 1
+                slot = 'loop:%s' % (show(nn)[:60] if nn is not None else ls.kind)
+                if (anchor, slot) in self._total_seen:
+                    continue
+                self._total_seen.add((anchor, slot))
+                self.unknown(self.pid + '.total', anchor, slot, sp=ls.sp, found='loop reached only when ' + ' & '.join(show(c)[:120] for c in extra),
+                             expected='every loop of an analysed function is reached on every path (or skipped only when it would not iterate)',
+                             why='the loop is skipped on some path: what the property says about its effect is not established for the inputs that take that path')
+        if not n_cond and (anchor, 'loops') not in self._total_seen:
+            self._total_seen.add((anchor, 'loops'))
+            top = [ls for ls in vf.loops if not ls.ctx]
+            self.ok(self.pid + '.total', anchor, 'loops', expected='every loop reached on every path', found='%d top-level loop(s), none behind a guard' % len(top),
+                    why='loop summaries speak for every input only if no path goes around the loop')
 
     # ---- private helpers located by their role in the call graph (a rename is invisible)
     def local_callees(self, body):
